@@ -154,8 +154,12 @@ def render(table, layout, dec, delimiter, header, quoting, eol, rnd=None):
     return buf.getvalue()
 
 
-def regex_for(layout):
+def regex_for(layout, open_ended=False):
+    """A line pattern for the pipe rendering.  Two equivalent spellings: one that describes the whole line, and one that stops
+    after the last column it needs (whatever follows on the line - a running balance, a remark - is not its business)."""
     n = len(LAYOUTS[layout]['cols'])
+    if open_ended:
+        return 'regex:' + r'\|'.join(['([^|]*)'] * n)
     return 'regex:^' + r'\|'.join(['([^|]*)'] * n) + r'(?:\|.*)?$'
 
 
